@@ -104,6 +104,70 @@ fn seq3(a: &mut Args) -> String {
     format!("{};; {}", obs, out)
 }
 
+// ---------------------------------------------------------------- composite shapes: workspace bookkeeping
+/// `comp3 flipped nparts (ptype p(3) pose)* s2type q(3) pred nposes pose*`
+///  → `part aabbs, per call: box nleaves leaves* ;; per call: nman (s1 s2 pos1? pos2? tag manifold)*`
+/// `tm = true`: the composite is a TriMesh given as `nverts v* ntris (i j k)*` instead of the part list.
+fn comp3(a: &mut Args, tm: bool) -> String {
+    use crate::p3::query::{DefaultQueryDispatcher, PersistentQueryDispatcher};
+    use crate::p3::query::visitors::BoundingVolumeIntersectionsVisitor;
+    use crate::p3::bounding_volume::BoundingVolume;
+    use crate::p3::shape::*;
+    let flipped = a.b();
+    let mut obs = String::new();
+    let comp: Box<dyn Shape3> = if tm {
+        let nv = a.u(); let vs: Vec<_> = (0..nv).map(|_| d3::p(a)).collect();
+        let nt = a.u(); let ts: Vec<[u32; 3]> = (0..nt).map(|_| [a.u() as u32, a.u() as u32, a.u() as u32]).collect();
+        let mesh = TriMesh::new(vs, ts).unwrap();
+        for t in mesh.triangles() { let bb = t.local_aabb(); obs += &format!("{} {} ", d3::fp(&bb.mins), d3::fp(&bb.maxs)); }
+        Box::new(mesh)
+    } else {
+        let np = a.u();
+        let mut parts = Vec::new();
+        for _ in 0..np {
+            let ty = a.u(); let p = d3::v(a); let pose = d3::iso(a);
+            let sh = if ty == 0 { SharedShape::ball(p.x) } else { SharedShape::cuboid(p.x, p.y, p.z) };
+            parts.push((pose, sh));
+        }
+        let c = Compound::new(parts);
+        for bb in c.aabbs() { obs += &format!("{} {} ", d3::fp(&bb.mins), d3::fp(&bb.maxs)); }
+        Box::new(c)
+    };
+    let ty2 = a.u(); let q = d3::v(a);
+    let other: Box<dyn Shape3> = if ty2 == 0 { Box::new(Ball::new(q.x)) } else { Box::new(Cuboid::new(q)) };
+    let pred = a.f();
+    let n = a.u();
+    let poses: Vec<_> = (0..n).map(|_| d3::iso(a)).collect();
+    let mut manifolds: Vec<M3> = Vec::new();
+    let mut ws = None;
+    let mut out = String::new();
+    for (k, p) in poses.iter().enumerate() {
+        // the box the implementation must use: the other shape's AABB in the composite's frame, loosened by the prediction
+        let pos_in_comp = if flipped { p.inverse() } else { *p };
+        let bx = other.compute_aabb(&pos_in_comp).loosened(pred);
+        obs += &format!("{} {} ", d3::fp(&bx.mins), d3::fp(&bx.maxs));
+        let mut leaves: Vec<u32> = Vec::new();
+        {
+            let mut cb = |l: &u32| { leaves.push(*l); true };
+            let mut vis = BoundingVolumeIntersectionsVisitor::new(&bx, &mut cb);
+            let qb = if let Some(c) = comp.as_compound() { c.qbvh() } else { comp.as_trimesh().unwrap().qbvh() };
+            let _ = qb.traverse_depth_first(&mut vis);
+        }
+        obs += &format!("{} ", leaves.len());
+        for l in &leaves { obs += &format!("{} ", l); }
+        let r = if flipped { DefaultQueryDispatcher.contact_manifolds(p, &*other, &*comp, pred, &mut manifolds, &mut ws) }
+                else { DefaultQueryDispatcher.contact_manifolds(p, &*comp, &*other, pred, &mut manifolds, &mut ws) };
+        if r.is_err() { return "unsupported".into(); }
+        out += &format!("{} ", manifolds.len());
+        for (i, m) in manifolds.iter_mut().enumerate() {
+            let fp = |o: &Option<d3::Isometry<f64>>| match o { Some(x) => format!("1 {}", d3::fiso(x)), None => "0".to_string() };
+            out += &format!("{} {} {} {} {} {} ", m.subshape1, m.subshape2, fp(&m.subshape_pos1), fp(&m.subshape_pos2), m.data, fman3(m));
+            m.data = (1000 * (k + 1) + i + 1) as u32;      // re-tag: user data must follow the part, not the slot
+        }
+    }
+    format!("{};; {}", obs, out.trim_end())
+}
+
 // ---------------------------------------------------------------- exec
 pub fn exec(func: &str, a: &mut Args) -> String {
     match func {
@@ -126,6 +190,8 @@ pub fn exec(func: &str, a: &mut Args) -> String {
             crate::p3::query::details::contact_manifold_ball_ball(&p, &crate::p3::shape::Ball::new(r1), &crate::p3::shape::Ball::new(r2), pr, &mut m);
             fman3(&m) }
         "seq3" => seq3(a),
+        "comp3" => comp3(a, false),
+        "tm3" => comp3(a, true),
         _ => "nofn".into(),
     }
 }
@@ -318,6 +384,91 @@ fn gen_seq3(r: &mut Rng, lat: bool, kind: usize, maxposes: usize) -> (String, St
     ("seq3".into(), s)
 }
 
+/// Compound of balls/cuboids (grid-ish layout) against a moving ball/cuboid
+fn gen_comp3(r: &mut Rng, lat: bool, maxposes: usize) -> (String, String) {
+    let flipped = r.bool();
+    let np = 1 + r.below(7) as usize;
+    let s2ball = r.below(4) != 0;
+    let mut s = format!("{} {}", b(flipped), np);
+    let mut centers = Vec::new();
+    for i in 0..np {
+        // the model has ball/ball, cuboid/ball, ball/cuboid narrow phases: cuboid parts only against a ball
+        let ty = if s2ball && r.below(3) == 0 { 1 } else { 0 };
+        let p = if ty == 0 { d3::Vector::new(if lat { *r.pick(&[0.25, 0.5, 1.0]) } else { r.uniform(0.2, 1.0) }, 0.0, 0.0) }
+                else { if lat { d3::Vector::new(*r.pick(&[0.25, 0.5, 1.0]), *r.pick(&[0.25, 0.5]), *r.pick(&[0.5, 1.0])) } else { d3::Vector::new(r.uniform(0.2, 1.0), r.uniform(0.2, 1.0), r.uniform(0.2, 1.0)) } };
+        let c = if lat { d3::Vector::new((i % 3) as f64 * 1.5, ((i / 3) % 3) as f64 * 1.5, r.range(-1, 1) as f64 * 0.5) }
+                else { d3::Vector::new(r.uniform(-3.0, 3.0), r.uniform(-3.0, 3.0), r.uniform(-1.0, 1.0)) };
+        centers.push(c);
+        let q = d3::gen_quat(r, lat);
+        let pose = d3::Isometry::from_parts(d3::na::Translation3::from(c), d3::na::Unit::new_unchecked(d3::na::Quaternion::new(q[3], q[0], q[1], q[2])));
+        s += &format!(" {} {} {}", ty, d3::hv(&p), d3::hiso(&pose));
+    }
+    let q2 = if s2ball { d3::Vector::new(if lat { *r.pick(&[0.5, 1.0, 2.0]) } else { r.uniform(0.3, 2.0) }, 0.0, 0.0) }
+             else { if lat { d3::Vector::new(*r.pick(&[0.5, 1.0]), *r.pick(&[0.5, 2.0]), 0.5) } else { d3::Vector::new(r.uniform(0.3, 2.0), r.uniform(0.3, 2.0), r.uniform(0.3, 1.0)) } };
+    let pred = if lat { *r.pick(&[0.0, 0.25, 0.5]) } else { *r.pick(&[0.0, 0.01, 0.1, 0.4]) };
+    s += &format!(" {} {} {}", if s2ball { 0 } else { 1 }, d3::hv(&q2), hx(pred));
+    // the other shape wanders over the parts: world frame = compound frame; pose of `other` in it
+    let n = 2 + r.below(maxposes as u64 - 1) as usize;
+    let mut cur = { let c = *r.pick(&centers); let q = d3::gen_quat(r, lat);
+        d3::Isometry::from_parts(d3::na::Translation3::from(c + d3::Vector::new(0.0, 0.0, if lat { 1.0 } else { r.uniform(0.5, 1.5) })), d3::na::Unit::new_unchecked(d3::na::Quaternion::new(q[3], q[0], q[1], q[2]))) };
+    let mut poses = Vec::new();
+    for _ in 0..n {
+        poses.push(if flipped { cur.inverse() } else { cur });
+        let k = r.below(10);
+        if k < 5 { cur.translation.vector += if lat { d3::gen_v(r, true, 1.0) * 0.125 } else { d3::Vector::new(r.uniform(-1.0, 1.0), r.uniform(-1.0, 1.0), r.uniform(-1.0, 1.0)) * 0.3 };
+                   if !lat { let ang = r.uniform(0.0, 0.3); cur.rotation = small_quat(r, ang) * cur.rotation; } }
+        else if k < 8 { let c = *r.pick(&centers); cur.translation.vector = c + if lat { d3::gen_v(r, true, 1.0) * 0.25 } else { d3::Vector::new(r.uniform(-1.0, 1.0), r.uniform(-1.0, 1.0), r.uniform(-1.0, 1.0)) }; }
+        else if k < 9 { cur.translation.vector += d3::Vector::new(0.0, 0.0, 50.0); }       // separation
+        else { }
+    }
+    // with exact arithmetic in mind the lattice poses use exact rotations only when not flipped (inverse() is exact there too)
+    s += &format!(" {}", n);
+    for p in &poses { s += " "; s += &d3::hiso(p); }
+    ("comp3".into(), s)
+}
+
+/// a height-field-like triangle mesh (grid, with jitter) against a moving ball/cuboid: bookkeeping oracle only
+fn gen_tm3(r: &mut Rng, lat: bool, maxposes: usize) -> (String, String) {
+    let flipped = r.bool();
+    let nx = 2 + r.below(3) as usize; let nz = 2 + r.below(3) as usize;
+    let mut vs = Vec::new();
+    for i in 0..=nx { for j in 0..=nz {
+        let y = if lat { r.range(-1, 1) as f64 * 0.25 } else { r.uniform(-0.3, 0.3) };
+        vs.push(d3::Point::new(i as f64, y, j as f64));
+    } }
+    let mut ts = Vec::new();
+    for i in 0..nx { for j in 0..nz {
+        let v = |a: usize, c: usize| (a * (nz + 1) + c) as u32;
+        ts.push([v(i, j), v(i, j + 1), v(i + 1, j)]);
+        ts.push([v(i + 1, j), v(i, j + 1), v(i + 1, j + 1)]);
+    } }
+    let mut s = format!("{} {}", b(flipped), vs.len());
+    for v in &vs { s += " "; s += &d3::hp(v); }
+    s += &format!(" {}", ts.len());
+    for t in &ts { s += &format!(" {} {} {}", t[0], t[1], t[2]); }
+    let s2ball = r.bool();
+    let q2 = if s2ball { d3::Vector::new(if lat { *r.pick(&[0.25, 0.5, 1.0]) } else { r.uniform(0.2, 1.2) }, 0.0, 0.0) }
+             else { if lat { d3::Vector::new(0.5, 0.25, 0.5) } else { d3::Vector::new(r.uniform(0.2, 1.0), r.uniform(0.2, 1.0), r.uniform(0.2, 1.0)) } };
+    let pred = if lat { *r.pick(&[0.0, 0.25]) } else { *r.pick(&[0.0, 0.01, 0.1]) };
+    s += &format!(" {} {} {}", if s2ball { 0 } else { 1 }, d3::hv(&q2), hx(pred));
+    let n = 2 + r.below(maxposes as u64 - 1) as usize;
+    let q = d3::gen_quat(r, lat);
+    let mut cur = d3::Isometry::from_parts(d3::na::Translation3::new(r.below(nx as u64 + 1) as f64, if lat { 0.5 } else { r.uniform(0.0, 1.0) }, r.below(nz as u64 + 1) as f64),
+        d3::na::Unit::new_unchecked(d3::na::Quaternion::new(q[3], q[0], q[1], q[2])));
+    let mut poses = Vec::new();
+    for _ in 0..n {
+        poses.push(if flipped { cur.inverse() } else { cur });
+        let k = r.below(10);
+        if k < 6 { cur.translation.vector += if lat { d3::gen_v(r, true, 1.0) * 0.03125 } else { d3::Vector::new(r.uniform(-1.0, 1.0), r.uniform(-0.3, 0.3), r.uniform(-1.0, 1.0)) * *r.pick(&[0.01, 0.1, 0.5]) }; }
+        else if k < 8 { cur.translation.vector = d3::Vector::new(r.uniform(0.0, nx as f64), r.uniform(0.0, 1.0), r.uniform(0.0, nz as f64)); }
+        else if k < 9 { cur.translation.vector.y += 40.0; }
+        else { }
+    }
+    s += &format!(" {}", n);
+    for p in &poses { s += " "; s += &d3::hiso(p); }
+    ("tm3".into(), s)
+}
+
 pub fn gen(r: &mut Rng, thorough: bool) -> Vec<(String, String)> {
     let k = if thorough { 10 } else { 1 };
     let mut v = Vec::new();
@@ -345,6 +496,11 @@ pub fn gen(r: &mut Rng, thorough: bool) -> Vec<(String, String)> {
     for it in 0..90 * k {
         let lat = it % 2 == 0;
         for kind in 0..9 { v.push(gen_seq3(r, lat, kind, 20)); }
+    }
+    for it in 0..250 * k {
+        let lat = it % 2 == 0;
+        v.push(gen_comp3(r, lat, 20));
+        if it % 2 == 0 { v.push(gen_tm3(r, it % 4 == 0, 20)); }
     }
     v
 }
